@@ -720,3 +720,14 @@ for _p, _f in TIED.items():
     PROPS[_p]["level_text"] += (" Tied by translation+proof (no sampling): the Go source of " + _f + " is translated mechanically "
                                 "(gen/funcs.go) on every run and proved equal to the model for all inputs (Hertz.Props.Tie).")
     PROPS[_p]["trusted"] = PROPS[_p].get("trusted", []) + ["Go->Lean function translator gen/funcs.go + lean/Hertz/GoSem.lean (semantics of the translated subset)"]
+# X04 (agent x-04): the connection after a response
+_upd("C04", "Sequencing is proved (Model/Http1/RespSeq = the write side of Serve's keep-alive loop; Spec.Resp.decodeSeq = the client): for every "
+     "list of exchanges the client reads back exactly the responses up to the first closing one, each starting where the previous one ends "
+     "(responses_decode_in_sequence); a body stream shorter than declared is the last thing on the wire for every continuation and can never "
+     "be taken for a complete message (short_stream_closes, short_stream_undecodable, short_stream_is_detected); Connection: close is announced "
+     "exactly when Serve closes, keep-alive to HTTP/1.0 peers, nothing follows (close_decision_*, no_response_after_close). Op respq compares "
+     "the whole wire of pipelined connections (short / failing / (n,EOF) streams, hijack, malformed last request) with the model byte for byte.")
+PROPS["C04"]["rule"] += (" X04: connections of 2..4 pipelined requests (Connection absent/close/keep-alive/Keep-Alive/Close/upgrade, HTTP/1.0 and 1.1) whose "
+                         "handlers use declared-length streams ending early with io.EOF at 0, 1, n-1 bytes, at a whole number of 4096-byte buffers or anywhere, "
+                         "ending with a read error, returning (n, io.EOF) together, exact and longer streams, chunked streams, io.LimitedReader, HEAD, "
+                         "SetConnectionClose, Hijack, and a malformed last request answered by Serve itself.")
